@@ -212,6 +212,8 @@ func c08Case(b *Batch, idx int) {
 	cfg := cache.Config{EvictionStrategy: strat, DeleteExpiredAfter: 100 * time.Hour, ExpirationJitter: -1}
 	cleanup := !evict && rng.Intn(2) == 0
 	if cleanup {
+		// rewrite-heavy mix: long-expired versions are constantly replaced while the janitor scans
+		prof = [6]int{30, 80, 85, 88, 89, 50}
 		// the real janitor deletes entries expired more than 30min ago (writes with -1h), never ExpireAll'd or fresh ones
 		cfg.DeleteExpiredJobInterval = time.Millisecond
 		cfg.DeleteExpiredAfter = 30 * time.Minute
